@@ -43,7 +43,7 @@ class Recorder:
         self.lock = threading.RLock()
         self.log = []
         self.seen = set()
-        self.serial = 0
+        self.serial = self.serial0 = 0
         self.arm_handover = False
         self.handed_back, self.dispatched = threading.Event(), threading.Event()
         self.conns = []          # weakrefs to the SocketConnection objects of this scenario
@@ -60,7 +60,8 @@ class Recorder:
 
     def reset(self):
         with self.lock:
-            self.log, self.seen, self.conns, self.serial = [], set(), [], 0
+            # serials stay unique for the life of the process: a wrapper of an earlier scenario may be closed by the GC later
+            self.log, self.seen, self.conns, self.serial0 = [], set(), [], self.serial
         self.arm_handover = False
         self.hook_raise = set()
         self.dispatched.set()          # release a worker that may still be parked from the previous scenario
@@ -701,7 +702,7 @@ class Player:
             a = self.acct()
             # every connection this harness opened has to have been accepted by the daemon first (a connection still in the
             # kernel's accept queue is invisible to the accounting); give that one second, a reset one may never show up
-            pending = self.rec.serial < self.opened and time.time() - t0 < 1.0
+            pending = self.rec.serial - self.rec.serial0 < self.opened and time.time() - t0 < 1.0
             if not pending and a == livec and (expect is None or a == expect):
                 n += 1
                 if n >= 2:
